@@ -43,13 +43,40 @@ func init() {
 type fnHasher struct {
 	name string
 	f    func(int) uint32
+	// canon != nil: keys are equivalent (Eqv) when their canonical representatives are equal - an equivalence
+	// coarser than ==, as with case-insensitive strings; Hash must then depend on the representative only
+	canon func(int) int
 }
 
-func (h fnHasher) Eqv(a, b int) bool { return a == b }
+func (h fnHasher) Eqv(a, b int) bool {
+	if h.canon != nil {
+		return h.canon(a) == h.canon(b)
+	}
+	return a == b
+}
 func (h fnHasher) Hash(a int) uint32 { return h.f(a) }
 
 func c03Hasher(r *sim.Run) fp.Hashable[int] {
-	switch r.Choose(9, "hasher") {
+	switch r.Choose(11, "hasher") {
+	case 9, 10:
+		// Eqv coarser than ==: k and k+e are the same key. The reference is keyed by the representative k%e; which of
+		// the equivalent keys the map hands back from Iterator/Keys is not specified and is compared modulo Eqv.
+		e := []int{5, 24, 48}[r.Choose(3, "eqvMod")]
+		spread := r.Choose(2, "eqvSpread") == 1
+		r.Fault("hasher:coarse-eqv")
+		canon := func(k int) int {
+			if k < 0 {
+				return k
+			}
+			return k % e
+		}
+		return fnHasher{name: fmt.Sprintf("Eqv(a,b) = a%%%d==b%%%d, spread=%v", e, e, spread), f: func(k int) uint32 {
+			c := uint32(canon(k))
+			if spread {
+				return c * 0x9E3779B1
+			}
+			return c % 7
+		}, canon: canon}
 	case 7, 8:
 		// digit hashers: the key's mixed-radix digits become the 5-bit fragments of successive trie levels, so that a
 		// chosen level (not only the root) gets few or many children: k%a at the root, (k/a)%b one level down, the
@@ -58,7 +85,7 @@ func c03Hasher(r *sim.Run) fp.Hashable[int] {
 		b := []int{2, 3, 17, 20, 32}[r.Choose(5, "digitB")]
 		lossy := r.Choose(3, "digitLossy") == 0 // drop the top digit: full 32-bit collisions below the second level
 		r.Fault("hasher:digits")
-		return fnHasher{fmt.Sprintf("digits k%%%d | (k/%d)%%%d<<5 | rest<<10 (lossy=%v)", a, a, b, lossy), func(k int) uint32 {
+		return fnHasher{name: fmt.Sprintf("digits k%%%d | (k/%d)%%%d<<5 | rest<<10 (lossy=%v)", a, a, b, lossy), f: func(k int) uint32 {
 			h := uint32(k%a) | uint32((k/a)%b)<<5
 			if !lossy {
 				h |= uint32(k/(a*b)) << 10
@@ -66,23 +93,23 @@ func c03Hasher(r *sim.Run) fp.Hashable[int] {
 			return h
 		}}
 	case 0:
-		return fnHasher{"identity", func(k int) uint32 { return uint32(k) }}
+		return fnHasher{name: "identity", f: func(k int) uint32 { return uint32(k) }}
 	case 1:
 		n := hash.Number[int]()
-		return fnHasher{"hash.Number", n.Hash}
+		return fnHasher{name: "hash.Number", f: n.Hash}
 	case 2:
 		r.Fault("hasher:low-entropy")
-		return fnHasher{"k mod 4", func(k int) uint32 { return uint32(k % 4) }}
+		return fnHasher{name: "k mod 4", f: func(k int) uint32 { return uint32(k % 4) }}
 	case 3:
 		r.Fault("hasher:constant")
-		return fnHasher{"constant", func(int) uint32 { return 0xdeadbeef }}
+		return fnHasher{name: "constant", f: func(int) uint32 { return 0xdeadbeef }}
 	case 4:
 		r.Fault("hasher:high-bits-only")
-		return fnHasher{"k<<27", func(k int) uint32 { return uint32(k) << 27 }}
+		return fnHasher{name: "k<<27", f: func(k int) uint32 { return uint32(k) << 27 }}
 	case 5:
 		r.Fault("hasher:collide-subset")
 		m := 2 + r.Choose(5, "collideMod")
-		return fnHasher{fmt.Sprintf("collide k%%%d==0", m), func(k int) uint32 {
+		return fnHasher{name: fmt.Sprintf("collide k%%%d==0", m), f: func(k int) uint32 {
 			if k%m == 0 {
 				return 99
 			}
@@ -90,7 +117,7 @@ func c03Hasher(r *sim.Run) fp.Hashable[int] {
 		}}
 	default:
 		r.Fault("hasher:two-level")
-		return fnHasher{"(k%3)<<5 | k%2", func(k int) uint32 { return uint32(k%3)<<5 | uint32(k%2) }}
+		return fnHasher{name: "(k%3)<<5 | k%2", f: func(k int) uint32 { return uint32(k%3)<<5 | uint32(k%2) }}
 	}
 }
 
@@ -113,6 +140,14 @@ type c03store struct {
 	pool     []*c03ver
 	events   int
 	log      []string
+}
+
+// c maps a key to the representative the reference is keyed by (identity unless the hasher's Eqv is coarser than ==).
+func (st *c03store) c(k int) int {
+	if h, ok := st.h.(fnHasher); ok && h.canon != nil {
+		return h.canon(k)
+	}
+	return k
 }
 
 func cloneModel(m map[int]int) map[int]int {
@@ -183,7 +218,7 @@ func (st *c03store) check(v *c03ver, when string) bool {
 		return bad("size-mismatch", "IsEmpty()=%v, reference has %d keys", empty, len(v.model))
 	}
 	for k := -1; k <= st.universe; k++ {
-		want, in := v.model[k]
+		want, in := v.model[st.c(k)]
 		if v.isSet {
 			if v.s.Contains(k) != in {
 				return bad("lookup-mismatch", "Contains(%d)=%v, reference says %v", k, !in, in)
@@ -203,7 +238,7 @@ func (st *c03store) check(v *c03ver, when string) bool {
 	if v.isSet {
 		it := v.s.Iterator()
 		for it.HasNext() {
-			got = append(got, it.Next()*100000+1)
+			got = append(got, st.c(it.Next())*100000+1)
 		}
 		n := 0
 		v.s.Foreach(func(int) { n++ })
@@ -214,11 +249,11 @@ func (st *c03store) check(v *c03ver, when string) bool {
 		it := v.m.Iterator()
 		for it.HasNext() {
 			t := it.Next()
-			got = append(got, t.I1*100000+t.I2)
+			got = append(got, st.c(t.I1)*100000+t.I2)
 		}
 		var ks, vs, wk, wv []int
 		for it := v.m.Keys(); it.HasNext(); {
-			ks = append(ks, it.Next())
+			ks = append(ks, st.c(it.Next()))
 		}
 		for it := v.m.Values(); it.HasNext(); {
 			vs = append(vs, it.Next())
@@ -331,10 +366,10 @@ func (st *c03store) construct(isSet bool) *c03ver {
 			v = 1
 		}
 		entries = append(entries, [2]int{k, v})
-		if _, ok := model[k]; !ok {
+		if _, ok := model[st.c(k)]; !ok {
 			order = append(order, k)
 		}
-		model[k] = v
+		model[st.c(k)] = v
 	}
 	ts := make([]fp.Tuple2[int, int], len(entries))
 	ks := make([]int, len(entries))
@@ -344,6 +379,12 @@ func (st *c03store) construct(isSet bool) *c03ver {
 	}
 	v := &c03ver{isSet: isSet, model: model}
 	c := r.Choose(6, "ctor")
+	if h, ok := st.h.(fnHasher); ok && h.canon != nil && c == 5 {
+		// the zero value has no Hashable (it falls back to Go's == on the keys, by construction): it is outside
+		// "for every Hashable" when the run's Eqv is coarser than ==; start from an empty collection that has the hasher
+		c, entries, ts, ks = 0, nil, nil, nil
+		v.model = map[int]int{}
+	}
 	if isSet {
 		switch c {
 		case 0:
@@ -456,12 +497,12 @@ func (st *c03store) apply(op c03op, client int) bool {
 			case moUpdated:
 				desc = fmt.Sprintf("Updated(%d,%d)", op.k, op.val)
 				nv.m = src.m.Updated(op.k, op.val)
-				nv.model[op.k] = op.val
+				nv.model[st.c(op.k)] = op.val
 			case moRemoved:
 				desc = fmt.Sprintf("Removed(%v)", op.ks)
 				nv.m = src.m.Removed(op.ks...)
 				for _, k := range op.ks {
-					delete(nv.model, k)
+					delete(nv.model, st.c(k))
 				}
 			case moUpdatedWith:
 				desc = fmt.Sprintf("UpdatedWith(%d,mode %d)", op.k, op.mode)
@@ -487,7 +528,7 @@ func (st *c03store) apply(op c03op, client int) bool {
 						return fp.Some(op.val)
 					}
 				})
-				old, in := src.model[op.k]
+				old, in := src.model[st.c(op.k)]
 				if calls != 1 || saw.IsDefined() != in || (in && saw.Get() != old) {
 					r.Violate("lookup-mismatch", "UpdatedWith(%d) on version %d: remap called %d time(s) with %v, reference present=%v value=%d", op.k, src.id, calls, saw, in, old)
 					ok = false
@@ -495,16 +536,16 @@ func (st *c03store) apply(op c03op, client int) bool {
 				}
 				switch op.mode {
 				case 0:
-					nv.model[op.k] = op.val
+					nv.model[st.c(op.k)] = op.val
 				case 1:
-					delete(nv.model, op.k)
+					delete(nv.model, st.c(op.k))
 				case 2:
 					if in {
-						nv.model[op.k] = old + 1
+						nv.model[st.c(op.k)] = old + 1
 					}
 				default:
 					if !in {
-						nv.model[op.k] = op.val
+						nv.model[st.c(op.k)] = op.val
 					}
 				}
 			case moConcatVer:
@@ -519,7 +560,7 @@ func (st *c03store) apply(op c03op, client int) bool {
 				ts := fp.Seq[fp.Tuple2[int, int]]{}
 				for i, k := range op.ks {
 					ts = append(ts, as.Tuple2(k, op.val+i))
-					nv.model[k] = op.val + i
+					nv.model[st.c(k)] = op.val + i
 				}
 				nv.m = src.m.Concat(seqIterable[fp.Tuple2[int, int]](ts))
 			default:
@@ -531,16 +572,16 @@ func (st *c03store) apply(op c03op, client int) bool {
 			case soIncl:
 				desc = fmt.Sprintf("Incl(%d)", op.k)
 				nv.s = src.s.Incl(op.k)
-				nv.model[op.k] = 1
+				nv.model[st.c(op.k)] = 1
 			case soExcl:
 				desc = fmt.Sprintf("Excl(%d)", op.k)
 				nv.s = src.s.Excl(op.k)
-				delete(nv.model, op.k)
+				delete(nv.model, st.c(op.k))
 			case soConcat:
 				desc = fmt.Sprintf("Concat(seq %v)", op.ks)
 				nv.s = src.s.Concat(seqIterable[int](op.ks))
 				for _, k := range op.ks {
-					nv.model[k] = 1
+					nv.model[st.c(k)] = 1
 				}
 			case soDiff, soIntersect:
 				other := st.pick(op.b, true)
